@@ -595,6 +595,18 @@ func (g *gen) enumDef(name string, flags bool) *Def {
 	}
 	if g.chance("enumBase", 45) {
 		d.Base = IntPrims[g.intn("enumBaseIdx", len(IntPrims))]
+		// the base type may be given through a named alias of an integer primitive
+		var aliases []scopeDef
+		for _, sd := range g.avail {
+			if sd.def.Kind == DAlias && len(sd.def.TypeParams) == 0 && sd.def.Type != nil && sd.def.Type.Kind == KPrim && IsIntPrim(sd.def.Type.Prim) {
+				aliases = append(aliases, sd)
+			}
+		}
+		if len(aliases) > 0 && g.chance("enumBaseAlias", 50) {
+			sd := aliases[g.intn("enumBaseAliasIdx", len(aliases))]
+			d.Base = sd.def.Type.Prim
+			d.BaseRef = Ref(sd.ns, sd.def.Name)
+		}
 	}
 	base := d.EffectiveBase()
 	bits := IntBits(base)
